@@ -268,6 +268,13 @@ def _sum_sections(doc):
   ]
 
 
+def _sum_of_sum(doc):
+  # a summary OF a summary table: removals there are caused by auto-removals one level below
+  tref = table_ref(doc, 'Src_summary_k_rl')
+  k = col_ref(doc, 'Src_summary_k_rl', 'k')
+  return [["CreateViewSection", tref, 0, "record", [k], None]]
+
+
 SUM_SETUP = [
     [["AddTable", "Other", [{"id": "label", "type": "Text"}]]],
     [["AddTable", "Src", [
@@ -282,6 +289,7 @@ SUM_SETUP = [
          "k": ["a", "a", "b"], "kl": [["L", "x", "y"], ["L", "x"], None],
          "r": [1, 2, 0], "rl": [["L", 1, 2], None, ["L", 2]], "n": [1, 2, 3]}]],
     _sum_sections,
+    _sum_of_sum,
 ]
 
 
@@ -324,8 +332,11 @@ class WSum(World):
         if hs('kl'):
           A(("upd S%d kl=alt" % r, [["UpdateRecord", "Src", r, {"kl": "zz"}]]))
           A(("upd S%d kl=[x,x]" % r, [["UpdateRecord", "Src", r, {"kl": ["L", "x", "x"]}]]))
+          # a NEW key repeated inside one cell (must give one summary row, not two)
+          A(("upd S%d kl=[w,w]" % r, [["UpdateRecord", "Src", r, {"kl": ["L", "w", "w"]}]]))
         if hs('rl'):
           A(("upd S%d rl=None" % r, [["UpdateRecord", "Src", r, {"rl": None}]]))
+          A(("upd S%d rl=[1,1]" % r, [["UpdateRecord", "Src", r, {"rl": ["L", 1, 1]}]]))
         if hs('n'):
           A(("upd S%d n" % r, [["UpdateRecord", "Src", r, {"n": 10}]]))
       vals = {}
